@@ -113,10 +113,11 @@ Definition ok_C06 (tbl : list (nat * nat)) (tr : list ev) : bool :=
      - a run that does not end with End 0 (deadlock, step bound = spinning, hang);
      - a loop whose shutdown completes (LoopEv t 2) while a started caller of it is unanswered;
      - time passing (Adv to tick) while some started, unanswered, uncancelled caller c of key k on
-       a running loop is not "accounted for":  accounted for means
+       a running (never stopped) loop is not "accounted for":  accounted for means
          strict:  no invocation of k has succeeded yet AND an invocation of k is in progress on a
                   loop that is still running (so c is legitimately waiting for it / performing it), or
-         window:  some loop that hosted an invocation of k has stopped (at tick d) and
+         window:  some loop that hosted an invocation of k has stopped running (last at tick d:
+                  run_until_complete returned or its shutdown run ended) and
                   tick <= max(first tick of c, d) + 60 s  (c may be stuck behind the dead loop, but
                   only for the safety window).
        In particular, on keys whose computing loops all stay running, every waiter is answered in
@@ -161,7 +162,7 @@ Definition deadtick (m : m5) (k : nat) : option N :=
 Definition accounted (tbl : list (nat * nat)) (m : m5) (tick : N) (cs : nat * N) : bool :=
   let c := fst cs in
   let k := tbl_key tbl c in
-  if mem c (fin5 m) || mem c (canc5 m) || negb (alive5 m (tbl_loop tbl c)) then true
+  if mem c (fin5 m) || mem c (canc5 m) || negb (running5 m (tbl_loop tbl c)) then true
   else
     (negb (mem k (succ5 m))
      && existsb (fun x => (fst (snd x) =? k) && running5 m (snd (snd x))) (live5 m))
@@ -204,7 +205,7 @@ Definition m5_step (tbl : list (nat * nat)) (m : m5) (e : ev) : m5 :=
       mkM5 (now5 m) (lset LClosed (lst5 m) t LShut) (stop5 m) (st5 m) (fin5 m) (canc5 m)
            (live5 m) (host5 m) (succ5 m) (ended5 m) (ok5 m)
   | LoopEv t 2 =>
-      mkM5 (now5 m) (lset LClosed (lst5 m) t LStop) (stop5 m) (st5 m) (fin5 m) (canc5 m)
+      mkM5 (now5 m) (lset LClosed (lst5 m) t LStop) ((t, now5 m) :: stop5 m) (st5 m) (fin5 m) (canc5 m)
            (live5 m) (host5 m) (succ5 m) (ended5 m)
            (ok5 m && forallb (fun cs => negb (tbl_loop tbl (fst cs) =? t) || mem (fst cs) (fin5 m)) (st5 m))
   | LoopEv t _ =>
